@@ -157,7 +157,40 @@ def enum_tables(P, adt_name):
     return variants, tables
 
 
+def _variant_to_out_spec(P, fn, adt_name):
+    """Writer table by variant-specialised evaluation: under "value = V" the function returns one integer constant, or
+    hands exactly one string literal to the formatter.  None if the function does not select on the enum."""
+    from . import spec as SP
+
+    roots = [r for r, a in SP.switch_roots(P, fn, [adt_name]) if a == adt_name]
+    if len(roots) != 1:
+        return None
+    m = {}
+    for v in P.adts[adt_name]["variants"]:
+        ev = evaluate(fn, {roots[0]: v["name"]})
+        r = strip_sites(SP.spec_inline(P, ev, ev.ret, 2))
+        if r.op == "const" and r.a[0] == "int":
+            m[v["name"]] = r.a[1]
+            continue
+        lits = set()
+        for _, s_ in sorted(ev.sites.items()):
+            if s_.callee[0].split("::")[-1] in ("write_str", "write_fmt", "pad", "fmt", "new_const", "from_str", "to_string", "serialize_str"):
+                for a in s_.args:
+                    for x in subterms(strip_sites(SP.spec_inline(P, ev, a, 2))):
+                        if x.op == "const" and x.a[0] == "bytes":
+                            lits.add(x.a[1])
+        if len(lits) == 1:
+            try:
+                m[v["name"]] = bytes.fromhex(next(iter(lits))).decode()
+            except Exception:
+                pass
+    return m
+
+
 def _variant_to_out(P, fn, adt_name):
+    m = _variant_to_out_spec(P, fn, adt_name)
+    if m:
+        return m
     rows = switch_table(P, fn)
     m = {}
     for conds, out, b in rows:
@@ -167,7 +200,27 @@ def _variant_to_out(P, fn, adt_name):
     return m
 
 
-def _in_to_variant(P, fn, adt_name, kind):
+def _in_to_variant(P, fn, adt_name, kind, _depth=0):
+    # a reader that only forwards its input to a sibling reader of the same enum (`from_str(s) = Ok(Self::from(s))`)
+    if _depth == 0:
+        ev = evaluate(fn)
+        r = strip_sites(ev.ret)
+        if r.op == "agg" and r.a[0][0] == "adt" and r.a[0][1] in ("Result", "Option") and r.a[0][2] in ("Ok", "Some") and len(r.a[1]) == 1:
+            r = r.a[1][0]
+        if r.op == "call" and len(r.a[1]) == 1 and B.peel(r.a[1][0]).op == "param":
+            cands = ["<%s as From<&str>>::from" % adt_name, "<%s as FromStr>::from_str" % adt_name, "<%s as From<u8>>::from" % adt_name, "<%s as TryFrom<u8>>::try_from" % adt_name]
+            name = B.cname(r)
+            g = None
+            if name in cands and name != fn.key:
+                g = P.fns.get(name)
+            elif name in ("From::from", "TryFrom::try_from", "FromStr::from_str", "Into::into"):
+                # trait call resolved by type: the sibling reader with the same input kind
+                for c in cands:
+                    if c != fn.key and c in P.fns and (("str" in c) == (kind == "str")):
+                        g = P.fns[c]
+                        break
+            if g is not None:
+                return _in_to_variant(P, g, adt_name, kind, 1)
     rows = switch_table(P, fn)
     m = {}
     for conds, out, b in rows:
@@ -295,8 +348,12 @@ def _unwrap(t):
 
 
 def classify_writer(P, f):
+    from ..core.sym import inline
+
     ev = evaluate(f)
-    ret = strip_sites(ev.ret)
+    # a writer may hand the whole value to a sibling writer of the same type (`Vec::from(&x)` -> `x.to_be_bytes()`)
+    sib = lambda g: g.impl_self_adt is not None and g.impl_self_adt == (f.j.get("inputs") or [""])[0].replace("&", "").split("<")[0] and g.name in ("to_be_bytes", "to_le_bytes", "to_bytes", "to_vec")
+    ret = strip_sites(inline(P, ev.ret, 1, only=sib))
     alts = list(ret.a[0]) if ret.op == "phi" else [ret]
     kinds = set()
     for r in alts:
